@@ -166,9 +166,13 @@ fn token_char() -> BoxedStrategy<char> {
 /// xsd:token over printable ASCII: words separated by single spaces.
 pub(crate) fn token() -> BoxedStrategy<String> {
     prop_oneof![
-        1 => Just(String::new()),
-        2 => prop::sample::select(vec!["0", "all", "&amp;", "&lt;", "&#x41;", "]]>", "<!--", "a&b", "it's", "\"q\"", "<msg>", "&", "<", ">", "'", "\""]).prop_map(|s| s.to_string()),
-        8 => prop::collection::vec(prop::collection::vec(token_char(), 1..7).prop_map(|v| v.into_iter().collect::<String>()), 1..4)
+        2 => Just(String::new()),
+        4 => prop::sample::select(vec!["0", "all", "&amp;", "&lt;", "&#x41;", "]]>", "<!--", "a&b", "it's", "\"q\"", "<msg>", "&", "<", ">", "'", "\""]).prop_map(|s| s.to_string()),
+        16 => prop::collection::vec(prop::collection::vec(token_char(), 1..7).prop_map(|v| v.into_iter().collect::<String>()), 1..4)
+            .prop_map(|w| w.join(" ")),
+        // long values (100..600 characters, a third of them XML-special): the escaped form
+        // crosses 255/256 and 511/512 octets at every alignment
+        1 => prop::collection::vec(prop::collection::vec(token_char(), 1..7).prop_map(|v| v.into_iter().collect::<String>()), 25..130)
             .prop_map(|w| w.join(" ")),
     ]
     .boxed()
